@@ -4,7 +4,7 @@ import (
 	"encoding/json"
 )
 
-const c16Rule = "exhaustive over the universe of value shapes (every scalar kind, every typed slice incl. empty and typed nil, fixed-size arrays, []interface{} with nil / nested / bool elements, maps, pointers, channels, funcs, structs, complex, untyped nil) x {field with default container, pattern container, range container, number parser, unknown field} x {k-groups, compact, roaring}; every hostile retrieval is followed by ordinary retrievals on the same index/scanner. Non-trivial = the hostile value reaches a holder of a known field (the retrieval returns an error or a result computed from it); distinct = distinct input"
+const c16Rule = "exhaustive over the universe of value shapes (every scalar kind, every typed slice incl. empty and typed nil, fixed-size arrays, []interface{} with nil / nested / bool elements, maps, pointers, channels, funcs, structs, complex, untyped nil) x {field with default container, pattern container, range container, number parser, unknown field} x {k-groups, compact, roaring} x index states {ordinary documents; no document; configured pattern/range/default fields whose holders are empty (empty value lists, unparsable values skipped)}; every hostile retrieval is followed by ordinary retrievals on the same index/scanner. Non-trivial = the hostile value reaches a holder of a known field (the retrieval returns an error or a result computed from it); distinct = distinct input"
 
 func init() {
 	props["C16"] = &propDef{
@@ -36,6 +36,40 @@ func init() {
 					}
 					// hostile value next to good ones
 					c.Queries = append(c.Queries, eQuery{A: []eAssign{{F: 0, V: tvInt("int", 7)}, {F: 1, V: v}, {F: 2, V: tvInt("int", 5)}}}, good[0])
+					add(c)
+				}
+			}
+			// degenerate index states: configured fields whose holders hold nothing (no document at all; empty
+			// value lists; a keyword / range value that does not parse under the Skip policy, so the holder was
+			// created and stays empty), next to one match-everything document
+			hollow := []eDoc{
+				{ID: 1, Cons: []eConj{{{F: 1, Inc: true, V: tvSlice("[]string")}}}},
+				{ID: 2, Cons: []eConj{{{F: 1, Inc: true, V: tvInt("int", 12345)}}}},
+				{ID: 3, Cons: []eConj{{{F: 2, Inc: true, V: tvSlice("[]int")}}}},
+				{ID: 4, Cons: []eConj{{{F: 2, Inc: true, V: tvStr("x")}}}},
+				{ID: 5, Cons: []eConj{{{F: 0, Inc: true, V: tvSlice("[]int")}}}},
+				{ID: 6, Cons: []eConj{{}}},
+			}
+			for _, kind := range []string{"kgroups", "compact"} {
+				for _, st := range [][]eDoc{nil, hollow, hollow[:2], hollow[2:4]} {
+					for _, v := range shapes {
+						c := eCase{Kind: kind, Policy: "skip", Configs: map[int]string{1: "ac_matcher", 2: "ext_range"}, Parsers: map[int]string{4: "number"}, Docs: st}
+						for f := 0; f <= 2; f++ {
+							c.Queries = append(c.Queries, eQuery{A: []eAssign{{F: f, V: v}}})
+						}
+						c.Queries = append(c.Queries, good[0], eQuery{A: []eAssign{{F: 1, V: tvStr("hello world")}, {F: 2, V: tvInt("int", 5)}}},
+							eQuery{A: []eAssign{{F: 1, V: tvSlice("[]string", tvStr("a"), tvStr("b"))}}}, eQuery{A: []eAssign{{F: 1, V: tvList(tvStr("a"), tvStr("b"))}}})
+						add(c)
+					}
+				}
+			}
+			for _, st := range [][]eDoc{nil, {hollow[0], hollow[4], hollow[5]}} {
+				for _, v := range shapes {
+					c := rCase{Fields: []rField{{F: 0, Cont: "default"}, {F: 1, Cont: "ac_matcher"}, {F: 4, Cont: "default", Parser: "number"}}, Docs: st}
+					for _, f := range []int{0, 1, 4} {
+						c.Ops = append(c.Ops, rOp{S: 0, Op: "reset"}, rOp{S: 0, Op: "retrieve", A: []eAssign{{F: f, V: v}}})
+					}
+					c.Ops = append(c.Ops, rOp{S: 0, Op: "reset"}, rOp{S: 0, Op: "docs", A: []eAssign{{F: 1, V: tvStr("hello world")}}})
 					add(c)
 				}
 			}
